@@ -324,3 +324,124 @@ def pass_list_obligations(ctx):
             ctx.violations.append(Violation(name, f"default pass list violates {name}: {[p.__name__ for p in passes]}",
                                             {"property": "C02", "obligation": name,
                                              "passes": [p.__name__ for p in passes]}, True))
+
+
+# ---------------------------------------------------------------------------------------------------------------------
+# Orphanage: "every" member is checked.  The loop `for attr in module.namespace.values(): assert_parentage(module, attr)`
+# of elaborate_module and the loop `for conn in inst.conns.values(): check_connectable(module, conn)` of check_instance
+# are executed with a foreach loop contract (the body establishes the fact for an arbitrary element and modifies
+# nothing, so after a normal exit it holds for all elements):
+#   elaborate_module: normal exit of the first loop  =>  every namespace member has this module as its parent
+#   check_instance  : normal return                  =>  check_connectable returned normally for every connection
+# ---------------------------------------------------------------------------------------------------------------------
+def orphanage_loop_obligations():
+    import ast as _ast
+    from pyvc import loader
+    from pyvc.engine import Frame
+    OWN = z3.Function("owned_by", z3.IntSort(), z3.IntSort(), z3.BoolSort())
+    out = []
+    # ---- elaborate_module, first loop
+    key = "hdl21.elab.passes.orphanage:Orphanage.elaborate_module"
+    ext = loader.extract(key)
+    info = {"sha": ext.sha, "lines": ext.lines, "path": ext.path, "paths": 0, "scenarios": 0, "unsupported": []}
+    obs = []
+    loops = [n for n in ext.node.body if isinstance(n, _ast.For)]
+    first = next((l for l in loops if "namespace" in _ast.unparse(l.iter)), None)
+    if first is None:
+        info["unsupported"].append("loop over module.namespace not found")
+    else:
+        all_loops = sorted([n for n in _ast.walk(ext.node) if isinstance(n, (_ast.For, _ast.While))],
+                           key=lambda n: (n.lineno, n.col_offset))
+        ordinal = all_loops.index(first)
+        q = z3.String("qns")
+
+        def elem_fact(eng, st, elem):
+            return st.heap.get("_parent_module", elem.z) == st.locals["module"].z
+
+        def all_fact(eng, st):
+            m = st.locals["module"].z
+            ns = st.heap.get("namespace", m)
+            v = z3.Select(ns, q)
+            return z3.ForAll([q], z3.Implies(v != NULL, st.heap.get("_parent_module", v) == m))
+        spec = LoopSpec(lambda eng, a, b: z3.BoolVal(True), modifies=(), foreach=(elem_fact, all_fact))
+        eng = mk_engine(contracts=[AssertParentage()], loops={(key, ordinal): spec}, field_classes=FIELD_CLASSES)
+        eng.field_classes["namespace[]"] = (Signal, BundleInstance, Instance, InstanceArray, InstanceBundle)
+        st = eng.new_state()
+        me = sym_ref(st, "self", (Orphanage,))
+        module = sym_ref(st, "module", (Module,))
+        st.locals = {"self": me, "module": module}
+        eng.frames.append(Frame(ext, ext.key))
+        eng.cuts = []
+        try:
+            outs = eng.exec_block([first], st)
+            cuts = list(eng.cuts)
+        except Unsupported as e:
+            info["unsupported"].append(f"namespace loop: {e}")
+            outs, cuts = [], []
+        finally:
+            eng.frames.pop()
+        info["scenarios"] += 1
+        for pi, (kind, s2, v) in enumerate(outs):
+            info["paths"] += 1
+            meta = {"trace": list(s2.trace), "havoc": list(s2.ghost.get("havoc", ()))}
+            for (oname, opc, goal) in s2.obligations:
+                obs.append(Obligation(f"{key}/namespace-loop/p{pi}/{oname.split('/')[-1]}", "loop", opc, zbool(goal), key,
+                                      "namespace-loop", pi, meta))
+            if kind == "ok":
+                m = module.z
+                ns = s2.heap.get("namespace", m)
+                k2 = z3.String("anyname")
+                v2 = z3.Select(ns, k2)
+                goal = z3.Implies(v2 != NULL, s2.heap.get("_parent_module", v2) == m)
+                obs.append(Obligation(f"{key}/namespace-loop/p{pi}/post.every-member-owned", "post", list(s2.pc), goal, key,
+                                      "namespace-loop", pi, meta))
+    out.append((key, obs, info))
+    # ---- check_instance
+    key2 = "hdl21.elab.passes.orphanage:Orphanage.check_instance"
+    ext2 = loader.extract(key2)
+    info2 = {"sha": ext2.sha, "lines": ext2.lines, "path": ext2.path, "paths": 0, "scenarios": 0, "unsupported": []}
+    obs2 = []
+    loops2 = sorted([n for n in _ast.walk(ext2.node) if isinstance(n, (_ast.For, _ast.While))],
+                    key=lambda n: (n.lineno, n.col_offset))
+    if len(loops2) != 1:
+        info2["unsupported"].append(f"expected one loop in check_instance, found {len(loops2)}")
+    else:
+        p = z3.String("qport")
+
+        def elem_fact2(eng, st, elem):
+            return OWN(st.locals["module"].z, elem.z)
+
+        def all_fact2(eng, st):
+            conns = st.heap.get("conns", st.locals["inst"].z)
+            v = z3.Select(conns, p)
+            return z3.ForAll([p], z3.Implies(v != NULL, OWN(st.locals["module"].z, v)))
+        spec2 = LoopSpec(lambda eng, a, b: z3.BoolVal(True), modifies=(), foreach=(elem_fact2, all_fact2))
+        cc = CheckConnectable()
+        eng = mk_engine(contracts=[cc], loops={(key2, 0): spec2}, field_classes=FIELD_CLASSES,
+                        schema_extra={"stack": "seq[ref]"})
+        eng.field_classes["conns[]"] = (Signal, Slice, Concat, BundleInstance, PortRef, NoConn)
+        eng.field_classes["stack[]"] = (Instance, InstanceArray, InstanceBundle, Module)
+        st = eng.new_state()
+        me = sym_ref(st, "self", (Orphanage,))
+        module = sym_ref(st, "module", (Module,))
+        inst = sym_ref(st, "inst", (Instance, InstanceArray, InstanceBundle))
+        eng.cuts = []
+        try:
+            outs = eng.run(ext2, st, {"self": me, "module": module, "inst": inst})
+        except Unsupported as e:
+            info2["unsupported"].append(f"check_instance: {e}")
+            outs = []
+        info2["scenarios"] += 1
+        for pi, (kind, s2, v) in enumerate(outs):
+            info2["paths"] += 1
+            meta = {"trace": list(s2.trace), "havoc": list(s2.ghost.get("havoc", ()))}
+            for (oname, opc, goal) in s2.obligations:
+                obs2.append(Obligation(f"{key2}/p{pi}/{oname.split('/')[-1]}", "loop", opc, zbool(goal), key2, "any", pi, meta))
+            if kind == "ret":
+                conns = s2.heap.get("conns", inst.z)
+                k2 = z3.String("anyport")
+                v2 = z3.Select(conns, k2)
+                obs2.append(Obligation(f"{key2}/p{pi}/post.every-connection-checked", "post", list(s2.pc),
+                                       z3.Implies(v2 != NULL, OWN(module.z, v2)), key2, "any", pi, meta))
+    out.append((key2, obs2, info2))
+    return out
